@@ -23,6 +23,7 @@ import (
 	"database/sql/driver"
 
 	"seata.apache.org/seata-go/pkg/tm"
+	"seata.apache.org/seata-go/pkg/util/log"
 )
 
 type FenceTx struct {
@@ -32,21 +33,27 @@ type FenceTx struct {
 }
 
 func (tx *FenceTx) Commit() error {
+	// whatever becomes of the business transaction, this delivery is over: the mark goes, and the fence
+	// transaction does not stay open - it holds the lock on the fence record of the branch
+	defer tx.clearFenceTx()
 	if err := tx.TargetTx.Commit(); err != nil {
+		// the business effect is not there: neither is the fence record
+		if rollbackErr := tx.TargetFenceTx.Rollback(); rollbackErr != nil {
+			log.Errorf("fence transaction rollback after a failed business commit: %v", rollbackErr)
+		}
 		return err
 	}
 
-	tx.clearFenceTx()
 	return tx.TargetFenceTx.Commit()
 }
 
 func (tx *FenceTx) Rollback() error {
-	if err := tx.TargetTx.Rollback(); err != nil {
-		return err
+	defer tx.clearFenceTx()
+	err := tx.TargetTx.Rollback()
+	if fenceErr := tx.TargetFenceTx.Rollback(); err == nil {
+		err = fenceErr
 	}
-
-	tx.clearFenceTx()
-	return tx.TargetFenceTx.Rollback()
+	return err
 }
 
 func (tx *FenceTx) clearFenceTx() {
